@@ -25,6 +25,12 @@ Fixpoint tree_eqb (a b : tree) : bool :=
   | _, _ => false
   end.
 
+(* transfer_data: the parent of dst/name is registered too (PRIMARY); the destination's data type is looked at again
+   (test -L) only for read-only transfers; only available locations are listed without a suffix *)
+Definition expected_reg (w : bool) (dst : option tree) (at_place : option tree) : list string :=
+  let ty := if w then "PRIMARY" else match at_place with Some (Link _) => "SYMBOLIC_LINK" | _ => "PRIMARY" end in
+  if is_dir dst then ["dst:PRIMARY"; String.append "dst/s:" ty] else [String.append "dst:" ty].
+
 Definition check_case (c : ccase) : bool :=
   match c with
   | CXfer r w dst sname dname t err obs reg =>
@@ -33,6 +39,6 @@ Definition check_case (c : ccase) : bool :=
       | Some fs' =>
           negb err
           && opt_eqb tree_eqb (lookup1 dname (entries fs')) obs
-          && list_eqb String.eqb reg (if is_dir dst then ["dst"; "dst/s"] else ["dst"])   (* the parent of dst/s is registered too *)
+          && list_eqb String.eqb reg (expected_reg w dst (lookup fs' (place dst sname dname)))
       end
   end.
